@@ -57,13 +57,13 @@ def _iops():
             t.insertEntry(Interval(a, b, "n"), m, "silence")
             return t
 
-        ops["insert-%s" % m] = (["a", "b"], lambda a, b: a < b, ins)
+        ops["insert-%s" % m] = (["a", "b"], None, ins)  # incl. degenerate a >= b: must raise, not store it
 
     def ins_ws(t, o, a, b):
         t.insertEntry(Interval(a, b, "  n "), "merge", "silence")
         return t
 
-    ops["insert-merge-unstripped-label"] = (["a", "b"], lambda a, b: a < b, ins_ws)
+    ops["insert-merge-unstripped-label"] = (["a", "b"], None, ins_ws)
 
     def dele(t, o, a, b):
         t.deleteEntry(Interval(a, b, "x"))
